@@ -10,7 +10,7 @@ that saw only the property text), and in the scratch worktree /tmp/seed/wt_<Cxx>
   3. pinned test suite with the patch  -> every stable_pass test must still pass
   4. our check on a scratch copy with the patch -> records whether it fires
   5. git checkout -- . ; demo          -> must exit 0 again
-and writes /verif/seeded/<Cxx>_<k>/{patch.diff, demo.py, note.md, meta.json}.
+and prints the confirmation record (filed afterwards by tools/refile_seed.py).
 """
 import json
 import os
@@ -87,27 +87,5 @@ res["demo_reverted_exit"] = rc2
 confirmed = rc0 == 0 and rc1 != 0 and rc2 == 0 and (skip_tests or not res.get("tests_missing"))
 res["confirmed"] = confirmed
 print(json.dumps(res, indent=1))
-if confirmed:
-    d = "/verif/seeded/%s_%s" % (pid, k)
-    os.makedirs(d, exist_ok=True)
-    shutil.copy(patch, os.path.join(d, "patch.diff"))
-    shutil.copy(demo, os.path.join(d, "demo.py"))
-    if os.path.exists(note):
-        shutil.copy(note, os.path.join(d, "note.md"))
-    meta = {
-        "property": pid,
-        "breaks": open("/tmp/seed/prop_%s.txt" % pid).read().splitlines()[0],
-        "needs": open(note).read()[:1500] if os.path.exists(note) else "",
-        "ran": [
-            "demo on clean worktree -> exit %d" % rc0,
-            "git apply patch.diff; demo -> exit %d" % rc1,
-            "pinned test suite with the patch -> %s of 98 stable_pass tests pass" % res.get("tests_stable_pass", "not run"),
-            "python3-vt sa/check.py %s --repo <scratch copy with patch> -> exit %d" % (pid, res["check_exit"]),
-            "git checkout; demo -> exit %d" % rc2,
-        ],
-        "check_exit": res["check_exit"],
-        "check_report": res["check_report"],
-        "expect": "fire" if res["check_exit"] == 1 else "miss",
-    }
-    json.dump(meta, open(os.path.join(d, "meta.json"), "w"), indent=1)
+# filing under /verif/seeded/ is done by tools/refile_seed.py <Cxx> <k> <dest index>
 sys.exit(0 if confirmed else 1)
